@@ -106,3 +106,9 @@ PROPS["C14"] = {"units": [
     rapid_unit("delay-filter-free", "vfilter", "^TestC14DelayFilter$", 400, 16 * 3000, overlay="full"),
     rapid_unit("router-delay-e2e", "vnete2e", "^TestC14RouterDelay$", 120, 16 * 800, overlay="plain"),
 ]}
+
+PROPS["C13"] = {"units": [
+    plain_unit("regress", "vnete2e", "^TestRegressC13", overlay="plain"),
+    rapid_unit("router-addresses", "vnete2e", "^TestC13RouterAddresses$", 1500, 16 * 20000, overlay="plain"),
+    rapid_unit("host-binds", "vnete2e", "^TestC13HostBinds$", 3000, 16 * 40000, overlay="plain"),
+]}
